@@ -437,6 +437,17 @@ def execute(db, argv, knobs, fault, directory, record=False, count_sys=False):
 # a trial: dataset + knobs + history, with invariants checked after every op
 # ---------------------------------------------------------------------------
 
+# dataset files as older releases (or an interrupted upgrade) left them: tables absent from the file
+LEGACY_LAYOUTS = {
+    "0.3.0": ("curvature", "evapotranspiration", "evapotranspiration_staging"),
+    "no-curvature": ("curvature",),
+    "no-rise-tables": ("rising_interval_zeta", "rising_interval"),
+    "no-recession-tables": ("recession_interval_zeta", "recession_interval"),
+    "no-grid-tables": ("discrete_zeta", "zeta_grid"),
+    "no-pairing-table": ("zeta_interval_storm",),
+}
+
+
 class Violation(Exception):
     def __init__(self, cls, detail):
         super().__init__(cls)
@@ -638,6 +649,12 @@ class Trial:
             k["parameters"] = rng.choice(["peatclsm", "spline"])
             k["grid_other_mm"] = rng.choice([x for x in (0.5, 1.0, 2.0, 5.0, 10.0, 0.25, 20.0) if x != k["grid_mm"]])
             k.pop("reference", None)
+            # the dataset file may have been written by an older release (README "Revision history": the
+            # curvature table and the evapotranspiration series joined the data model in 0.4.0) or lack
+            # another result table: every command must still fail or complete as a whole on such a file
+            k["legacy_layout"] = rng.choices(
+                [None] + sorted(LEGACY_LAYOUTS), weights=[88] + [{"0.3.0": 4, "no-curvature": 4}.get(n, 1)
+                                                                 for n in sorted(LEGACY_LAYOUTS)])[0]
             # the reference level is an argument of rise and of recession separately: either, both or
             # neither may be given one (a tree in which one curve's origin leaks into the other's only
             # shows when exactly one of them is)
@@ -688,6 +705,17 @@ class Trial:
         if not os.path.exists(self.db):
             open(self.db, "ab").close()     # killed before SQLite created the file
         self.loaded_ok = (not ex.killed) and ex.outcome.ok
+        legacy = self.knobs.get("legacy_layout")
+        if legacy and self.loaded_ok:
+            con = sqlseam.plain_connect(self.db)
+            try:
+                for table in LEGACY_LAYOUTS[legacy]:
+                    con.execute('DROP TABLE IF EXISTS "%s"' % table)
+                con.commit()
+            finally:
+                con.close()
+            self.stats["datasets_in_legacy_layout"] += 1
+            self.stats["datasets_in_legacy_layout_" + legacy] += 1
         self.current = dump_mod.dump(self.db)
         if self.spec["kind"] == "field":
             self.static_cache = dump_mod.static_cache_from(self.current)
@@ -1440,7 +1468,7 @@ def replay_ops(rep, directory):
 # ---------------------------------------------------------------------------
 
 def sweep(seed, directory, step, prefix_steps, spec=None, knobs=None, layers=("A", "C", "B"), b_stride=None,
-          field=None, max_positions=None, hot=False, size=None, shard=None):
+          field=None, max_positions=None, hot=False, size=None, shard=None, legacy=None):
     """Bring a dataset to a pre-state, then fail `step` at every position.
 
     Returns (stats, distinct, violations[list of (Violation, replay record)], sample).
@@ -1455,6 +1483,7 @@ def sweep(seed, directory, step, prefix_steps, spec=None, knobs=None, layers=("A
     elif size and size != "fine-grid":
         trial.spec = workload.gen_spec(trial.rng, size=size)
     trial.draw_setup()
+    trial.knobs["legacy_layout"] = legacy        # sweeps choose the layout by case, not by chance
     if field or size:
         # large data: keep the grid fine and the thresholds nominal so that every step has thousands of rows
         trial.knobs["grid_mm"] = 0.05 if size == "fine-grid" else 1.0
@@ -1651,7 +1680,8 @@ def _sweep_job(job):
         stats, distinct, violations, sample = sweep(
             job["seed"], directory, job["step"], job["prefix"], layers=job.get("layers", ("A", "C", "B", "L", "P", "R")),
             knobs=None, field=job.get("field"), max_positions=job.get("max_positions"),
-            spec=job.get("spec"), hot=bool(job.get("hot")), size=job.get("size"), shard=job.get("shard"))
+            spec=job.get("spec"), hot=bool(job.get("hot")), size=job.get("size"), shard=job.get("shard"),
+            legacy=job.get("legacy"))
     stats = collections.Counter(stats)
     stats["runs"] = 1
     return {"stats": stats, "violations": [_viol_record(v, r) for v, r in violations][:3],
@@ -1680,6 +1710,16 @@ SWEEP_CASES = [
     # failing attempts swept too: they must leave no trace wherever they are cut short
     ("rise", ("classify",)),
     ("classify", ("classify",)),
+]
+
+# files in an older layout: the step that finds its table missing (or creates it) swept at every position
+LEGACY_SWEEP_CASES = [
+    ("set-curvature", (), "no-curvature"),
+    ("set-curvature", ("classify", "set-zeta-grid"), "0.3.0"),
+    ("set-zeta-grid", ("classify",), "no-grid-tables"),
+    ("rise", ("classify", "set-zeta-grid"), "no-rise-tables"),
+    ("recession", ("classify", "set-zeta-grid"), "no-recession-tables"),
+    ("classify", (), "no-pairing-table"),
 ]
 
 HOT_SWEEP_CASES = [
@@ -1764,6 +1804,10 @@ def check(tier, only=None):
                                                "prefix": list(prefix), "max_positions": cfg["sweep_max"],
                                                "shard": (sh, nsh),
                                                "want_samples": rep == 0 and ci in (0, 8) and sh == 0}))
+            for rep in range(cfg["sweeps"]):
+                for ci, (step, prefix, legacy) in enumerate(LEGACY_SWEEP_CASES):
+                    jobs.append(("sweep", {"seed": runner.derive_seed(seed, "C20", "legacysweep", rep, ci), "step": step,
+                                           "prefix": list(prefix), "max_positions": cfg["sweep_max"], "legacy": legacy}))
             for rep in range(cfg["hot_sweeps"]):
                 for ci, (step, prefix) in enumerate(HOT_SWEEP_CASES):
                     for sh in range(nsh):
